@@ -38,7 +38,7 @@ try:
         os.remove(os.path.join(wt, place))
         cmd = "go test -vet=off -count=1 ./..." if full else "go test -vet=off -count=1 ./gemmill/... ./chain/..."
         rc, o = sh(cmd + " 2>&1 | grep -v 'no test files' | grep -E '^(FAIL|---|ok|panic)' ", cwd=wt)
-        fails = [l for l in o.split("\n") if l.startswith("FAIL") or l.startswith("--- FAIL")]
+        fails = [l for l in o.split("\n") if l.startswith("FAIL\t") or l.startswith("FAIL ") or l.startswith("panic")]
         # known baseline failures / timing flakes, not in the pinned list
         ignore = ("eth/crypto/ecies", "go-flowrate")
         res["existing_tests_cmd"] = cmd
